@@ -390,3 +390,53 @@ pub fn simple_response(status: u16) -> Response<()> {
 pub fn simple_request(path: &str, post: bool) -> Request<()> {
     Request::builder().method(if post { "POST" } else { "GET" }).uri(format!("http://h.example{}", path)).body(()).unwrap()
 }
+
+// ---------------------------------------------------------------------------------------------
+// write-buffer fill (shared by the "codec full, come back later" sweeps of C03 / C05 / C14)
+
+/// Server subject: with the transport blocked from now on, answer stream `sid` and queue inline DATA frames (each below the
+/// chain threshold) whose encoded size is `fill` octets in total, then let the connection stage them in its write buffer.
+pub fn fill_write_buffer(t: &mut T2, sid: u32, fill: usize, vectored: bool, panics: &mut Vec<String>) {
+    t.sh.lock().unwrap().set_write_blocked(t.role, true);
+    let chunk = if vectored { 250 } else { 1000 };
+    if let Some(a) = t.accepted.iter_mut().find(|a| a.sid == sid) {
+        if let Some(mut r) = a.respond.take() {
+            if let Some(Ok(mut ss)) = guarded(panics, "send_response", || r.send_response(simple_response(200), false)) {
+                let mut left = fill;
+                while left > 9 {
+                    let take = left.min(chunk + 9);
+                    let _ = guarded(panics, "send_data", || ss.send_data(Bytes::from(vec![0x55u8; take - 9]), false));
+                    left -= take;
+                }
+                a.send = Some(ss);
+            }
+        }
+    }
+    t.drive(100);
+}
+
+pub fn unblock_and_quiesce(t: &mut T2) {
+    let role = t.role;
+    t.sh.lock().unwrap().set_write_blocked(role, false);
+    let w = t.sh.lock().unwrap().blocked_writers[role.idx()].take();
+    if let Some(w) = w {
+        w.wake();
+    }
+    t.conn_flag.wake_by_ref_pub();
+    t.drive(300);
+    t.catch_up();
+}
+
+/// fill levels around the point where the write buffer (16384 octets) stops accepting frames: fewer than 1033 octets free
+/// without vectored I/O, fewer than 265 with it
+pub fn fill_levels(quick: bool) -> Vec<(bool, usize)> {
+    let pad = if quick { 120 } else { 700 };
+    let mut v = vec![];
+    for fill in (16384 - 1033 - pad)..=(16384 - 1033 + 40) {
+        v.push((false, fill));
+    }
+    for fill in (16384 - 265 - pad)..=(16384 - 265 + 40) {
+        v.push((true, fill));
+    }
+    v
+}
